@@ -12,6 +12,7 @@ CONSTANTS
   L2PerPrune = 1
   AssumeFinality = TRUE
   AssumeSlowL1 = TRUE
+  FixHashChecks = FALSE
 SPECIFICATION Spec
 INVARIANTS W_L1AheadOfHead
 CHECK_DEADLOCK FALSE
